@@ -15,7 +15,8 @@ import entity_query_language.symbolic as S
 import entity_query_language.conclusion as C
 import entity_query_language.conclusion_selector as CS
 import entity_query_language.cache_data as CD
-import entity_query_language.predicate as P
+import importlib
+P = importlib.import_module('entity_query_language.predicate')
 from entity_query_language.rxnode import RWXNode
 
 
